@@ -5,8 +5,8 @@ from nodegen import *
 ID = "C08"
 DRIVER = "node"
 MODEL_FILES = ["Model/Base.v", "Model/Parse.v", "Model/Node.v"]
-THEOREMS = []
-STRENGTH = {}
+THEOREMS = ["C08_step_unwinding", "C08_step_unwinding_strong", "C08_step_secrets_unchanged", "C08_step_same_databases", "C08_noninterference", "C08_noninterference_all_nonadmin", "C08_noninterference_strong", "C08_token_unremovable", "C08_token_survives_remove_value", "C08_low_eq_mask"]
+STRENGTH = {t: "proof-unbounded" for t in THEOREMS}
 RULE = ("two databases on one node set up identically except for the contents (and, for one key, the existence) of $$ keys; two "
         "non-administrator sessions (database-token or user-token) send the same command sequence (length 1-6) over every command "
         "word with key arguments from {$$token, $$user_x, $$permission_$x, $$secret, $secret, secret, *, $$*, *$$}; replies and "
